@@ -89,7 +89,26 @@ def thlSupplemental (v : Nat) (ini med rim : Option Nat) : Option Nat :=
       med == some Sym.U && (rim == some Sym.ENG || rim == some Sym.O) then none
   else med
 
-/-- the end-key branch of `Pinyin::key_press` on the letters `ks` -/
+/-- the rule blocks and the builder: from the table entries' initial / medial / rime and the tone -/
+def pinyinBuild (v : Nat) (ini0 med0 rim0 tone : Option Nat) : Option (Behavior × PinyinState) :=
+  let mr := hanyuEmptyRime v ini0 med0 rim0
+  let med2 := hanyuJqxU v ini0 mr.1 mr.2
+  let ini := thlInitial v ini0 med2
+  let med := thlSupplemental v ini med2 mr.2
+  match Builder.new.insertAll (ini.toList ++ med.toList ++ mr.2.toList ++ tone.toList) with
+  | .ok b => some (.commit, { keySeq := [], syl := b.value, alt := b.value })
+  | .error _ => none
+
+/-- split the letters into an `INITIAL_MAPPING` row (first row that is a prefix; stripped repeatedly) and
+    the `FINAL_MAPPING` row that equals the rest -/
+def pinyinSplit (ks : List Nat) : Option (List Nat × Nat) × Option (List Nat × Option Nat × Option Nat) :=
+  let iniE := pinyinInitials.find? (fun e => e.1.isPrefixOf ks)
+  let finalSeq := match iniE with
+    | some e => trimStartMatches e.1 ks
+    | none => ks
+  (iniE, pinyinFinals.find? (fun e => e.1 == finalSeq))
+
+/-- the end-key branch of `Pinyin::key_press` on the letters typed so far -/
 def pinyinCommit (v : Nat) (st : PinyinState) (code : Nat) : Option (Behavior × PinyinState) :=
   let ks := st.keySeq
   let tone := (pinyinToneKeys.find? (·.1 == code)).map (·.2)
@@ -99,23 +118,9 @@ def pinyinCommit (v : Nat) (st : PinyinState) (code : Nat) : Option (Behavior ×
     match pinyinCommon.find? (·.1 == ks) with
     | some row => pinyinAmb row tone
     | none =>
-      let iniE := pinyinInitials.find? (fun e => e.1.isPrefixOf ks)
-      let finalSeq := match iniE with
-        | some e => trimStartMatches e.1 ks
-        | none => ks
-      let finE := pinyinFinals.find? (fun e => e.1 == finalSeq)
-      if iniE.isNone && finE.isNone then some (.absorb, { st with keySeq := [] })
-      else
-        let ini0 := iniE.map (·.2)
-        let med0 := finE.bind (·.2.1)
-        let rim0 := finE.bind (·.2.2)
-        let (med1, rim) := hanyuEmptyRime v ini0 med0 rim0
-        let med2 := hanyuJqxU v ini0 med1 rim
-        let ini := thlInitial v ini0 med2
-        let med := thlSupplemental v ini med2 rim
-        match Builder.new.insertAll (ini.toList ++ med.toList ++ rim.toList ++ tone.toList) with
-        | .ok b => some (.commit, { keySeq := [], syl := b.value, alt := b.value })
-        | .error _ => none
+      let sp := pinyinSplit ks
+      if sp.1.isNone && sp.2.isNone then some (.absorb, { st with keySeq := [] })
+      else pinyinBuild v (sp.1.map (·.2)) (sp.2.bind (·.2.1)) (sp.2.bind (·.2.2)) tone
 
 /-- `Pinyin::key_press` -/
 def pinyinPress (v : Nat) (st : PinyinState) (k : KeyEvent) : Option (Behavior × PinyinState) :=
@@ -130,6 +135,26 @@ def pinyinRemoveLast (st : PinyinState) : PinyinState := { st with keySeq := st.
 def pinyinClear : PinyinState := PinyinState.init
 def pinyinIsEmpty (st : PinyinState) : Bool := st.keySeq.isEmpty
 def pinyinRead (st : PinyinState) : Nat := st.syl
+
+/-- what can be done to the Pinyin layout (`fuzzy_key_press` is `key_press`) -/
+inductive POp
+  | key (k : KeyEvent)
+  | removeLast
+  | clear
+deriving Repr, DecidableEq
+
+def pinyinStep (v : Nat) (st : PinyinState) : POp → Option (Behavior × PinyinState)
+  | .key k => pinyinPress v st k
+  | .removeLast => some (.absorb, pinyinRemoveLast st)
+  | .clear => some (.absorb, pinyinClear)
+
+/-- run a list of operations: (behaviour, state after) per step; `none` = a step panics -/
+def pinyinRun (v : Nat) (st : PinyinState) : List POp → Option (List (Behavior × PinyinState))
+  | [] => some []
+  | op :: ops =>
+    match pinyinStep v st op with
+    | none => none
+    | some (b, st') => (pinyinRun v st' ops).map fun tr => (b, st') :: tr
 
 /-- type letters then an end key from the fresh state -/
 def pinyinType (v : Nat) : PinyinState → List KeyEvent → Option (Behavior × PinyinState)
